@@ -821,6 +821,12 @@ class Finish(WriteSpec):
         return [Outcome('ok', post=post),
                 Outcome('io-error', 'raise', OSError_, post=failed)]
 
+    def havoc(self, c, E, outcome):
+        WriteSpec.havoc(self, c, E, outcome)
+        if outcome.label == 'io-error':
+            h = ghost_of(c, E['self'])
+            c.obj(h.file).f['closed'] = True
+
 
 class Close(WriteSpec):
     """FileStorage.close as seen by its callers (the index saving part is C09's)"""
@@ -844,7 +850,7 @@ class Close(WriteSpec):
 
 class Abort(WriteSpec):
     func = 'ZODB.FileStorage.FileStorage:FileStorage._abort'
-    props = ('C01', 'C05', 'C13')
+    props = ('C01', 'C02', 'C05', 'C13')
     cases = ('voted', 'not-voted')
 
     def setup(self, c, case=None):
